@@ -198,6 +198,12 @@ package actionlint
 //@ func (*Error).getLine
 //@   ensures result1 == hasline(source, e.Line) && (result1 ==> result0 == lineof(source, e.Line))
 //@   trusted hasline / lineof are the names of this function's results
+// what is verified about the line found: it is a token of the library's line scanner - one line without its
+// terminator (no LF, no CR left at its end; assumed contract of bufio.ScanLines) - so neither the snippet of the
+// template fields nor the pretty printer is handed a line terminator, whatever the line endings of the file
+//@ spec scanline(s: string): bool
+//@ func (*Error).getLine
+//@   ensures [C16] result1 ==> scanline(result0)
 //@ func (*Error).GetTemplateFields
 //@   props C16
 //@   body_calls (*Error).getIndicator iff len(source) > 0 && e.Line > 0 && hasline(source, e.Line) && len(lineof(source, e.Line)) >= e.Column - 1
